@@ -155,6 +155,16 @@ fn generate(cli: &Cli) -> (Vec<Case>, bool) {
                 singles(&mut rng, &ctx, &mut out);
             }
         }
+        // "never expires", written as the largest number there is (and one just short of it): the sum
+        // of timestamp and expiry does not fit into 64 bits
+        for expiry in [u64::MAX, u64::MAX - 1_000_000_000, 1u64 << 63] {
+            let ctx = Ctx { intent: Intent::Transfer, server_secret: main.server_secret.clone(), expiry: Some(expiry), client_addr };
+            for class in [Class::Valid, Class::ValidOtherPort, Class::Aged(3600), Class::Aged(400 * 24 * 3600), Class::OtherSecret, Class::OtherIp("198.51.100.77:40000".into()), Class::Absent] {
+                for service_ok in [true, false] {
+                    out.push(make_case(&mut rng, &ctx, class.clone(), true, service_ok));
+                }
+            }
+        }
     }
     (out, flip_stride == 1)
 }
@@ -330,7 +340,7 @@ pub fn run_prop(cli: &Cli) -> i32 {
         "per base cookie: every truncation length, every (quick: every 8th, rotating with the seed) single-bit flip of tag and body, plus absent/empty/valid/other port/other secret/other IP/aged (±margin around expiry, future, 10x)/signed garbage/signed wrong-shape JSON/short random, each under intent{transfer,login} × secret{set,none} × expiry{default,60,0}; the verdict is read from the should-authenticate flag of the Encryption Request, a sample of every class runs to the end; distinct = (context, class, flipped byte or truncation length)",
     );
     report.assume("cookie ages within ±10 s of the expiry boundary are not generated (the code reads the wall clock), except in the stalled-answer histories: 3 s before the expiry, answered at once (judged only if the run took < 2.5 s) or after 6 s of real time");
-    report.assume("timestamp+expiry beyond 2^64 is outside the generated domain");
+    report.assume("cookie timestamps beyond the present are generated up to one hour ahead only");
     let (cases, all_flips) = generate(cli);
     // the real-time histories run beside the bulk of the cases
     let (histories, stalled, results) = std::thread::scope(|sc| {
